@@ -38,7 +38,6 @@ import forsys.edge as fedge
 
 REL = 1e-9            # K and S tolerance on intensities (measured worst deviation on the clean tree: ~3e-15, see notes)
 SENTINEL = -12345.0   # value of BigEdge.gt before the call
-SIG_BAND = "integrate-fractional-band"
 
 LIST_KINDS = ["internal", "all", "repeat", "equal", "shuffled", "single", "repeat_equal"]
 IMG_STYLES_F = ["random", "smooth", "sparse", "wide", "uniform"]
@@ -169,14 +168,13 @@ def float_points(be, kw):
 def float_exact_may_branch(be, kw, L, integrate):
     """inputs on which exact and IEEE arithmetic may legitimately take different pixels (rejected):
        a placed coordinate within 1e-9 of an integer that the float computation does not hit exactly, or an
-       interpolated band coordinate whose float value np.interp's formula truncates differently from the exact one"""
+       interpolated band coordinate whose float value (scipy's) truncates to another pixel than the exact one"""
     ex, fl = exact_points(be, kw), float_points(be, kw)
     for (px, py), (fx, fy) in zip(ex, fl):
         for p, f in ((px, fx), (py, fy)):
             if abs(p - round(p)) < Fraction(1, 10 ** 9) and not (p.denominator == 1 and Fraction(float(f)) == p):
                 return "coordinate_tie"
     if integrate:
-        fpos, epos = set(), set()
         for (p, q) in zip(fl, fl[1:]):
             v0 = [math.ceil(p[0]), math.ceil(p[1])]
             v1 = [math.ceil(q[0]), math.ceil(q[1])]
@@ -189,15 +187,8 @@ def float_exact_may_branch(be, kw, L, integrate):
                 exact = Fraction(b0) + Fraction((b1 - b0) * (a - a0), (a1 - a0))
                 f = np.float64(kernel(a))
                 for kk in range(-L, L + 1):
-                    fk = f + np.int64(kk)
-                    if int(fk) != math.floor(exact) + kk:
+                    if int(f + np.int64(kk)) != math.floor(exact) + kk:
                         return "interp_tie"
-                    for ii in range(-L, L + 1):
-                        fpos.add((a + ii, float(fk)) if axis == 0 else (float(fk), a + ii))
-                        epos.add((Fraction(a + ii), exact + kk) if axis == 0 else (exact + kk, Fraction(a + ii)))
-        if len(fpos) != len(epos):
-            # positions that are equal as rationals differ in the last float digit: the code's set keeps both
-            return "float_position_split"
     return None
 
 
@@ -289,9 +280,9 @@ def oracle_window(arr, be, kw, L):
 
 
 def oracle_band(be, kw, L):
-    """distinct pixels of the layered band (and, for the known finding, the distinct positions)"""
+    """distinct pixels of the layered band"""
     fl = float_points(be, kw)
-    pix, pos = set(), set()
+    pix = set()
     for (p, q) in zip(fl, fl[1:]):
         v0 = (math.ceil(p[0]), math.ceil(p[1]))
         v1 = (math.ceil(q[0]), math.ceil(q[1]))
@@ -302,9 +293,8 @@ def oracle_band(be, kw, L):
             c = (Fraction(a), bb) if axis == 0 else (bb, Fraction(a))
             for i in range(-L, L + 1):
                 for j in range(-L, L + 1):
-                    pos.add((c[0] + i, c[1] + j))
                     pix.add((math.floor(c[0]) + i, math.floor(c[1]) + j))
-    return pix, pos
+    return pix
 
 
 def pix_sum(arr, cells):
@@ -342,7 +332,6 @@ def oracle(ck, case, b, lst, arr, obs, stats):
             return
         raw = [v for _, v in o2[0]]
     # window / band statistic
-    known = None
     for i, be in enumerate(lst):
         if not integrate:
             want = oracle_window(arr, be, b.kw, L)
@@ -354,26 +343,18 @@ def oracle(ck, case, b, lst, arr, obs, stats):
                 ck.fail("without integration: mean over vertices of the median of the (2L+1)^2 window", f"interface {i}: code {raw[i]} window statistic {float(want)}", case)
                 break
         else:
-            pix, pos = oracle_band(be, b.kw, L)
+            pix = oracle_band(be, b.kw, L)
             length = polyline_length(be, b.kw)
             want = float(pix_sum(arr, pix)) / length
             if close(want, raw[i], scale):
                 stats["dev"] = max(stats["dev"], abs(want - raw[i]) / max(abs(raw[i]), 1e-6 * scale, 1e-300))
                 ck.count("S_band_interfaces_ok")
                 continue
-            dup = float(pix_sum(arr, [(math.floor(x), math.floor(y)) for (x, y) in pos])) / length
-            if len(pos) > len(pix) and close(dup, raw[i], scale):
-                ck.count("S_band_interfaces_double_counted")
-                if known is None:
-                    known = (f"interface {i}: code {raw[i]} = sum over {len(pos)} positions / length; "
-                             f"the {len(pix)} distinct pixels give {want}")
-            else:
-                ck.fail("with integration: sum of the distinct pixels of the band / polyline length",
-                        f"interface {i}: code {raw[i]} distinct-pixel statistic {want} (positions {len(pos)} pixels {len(pix)})", case)
-                break
-    if known is not None:
-        # known finding: the set holds float positions, a pixel is read once per distinct position
-        ck.fail("with integration: sum of the DISTINCT pixels of the band / polyline length", known, case, signature=SIG_BAND)
+            # (defect D22, repaired in 5a78257: the band was a set of float positions and pixels were summed more than
+            #  once; corpus/C17/fractional_band.json.  A regression is an ordinary failure.)
+            ck.fail("with integration: sum of the distinct pixels of the band / polyline length",
+                    f"interface {i}: code {raw[i]} distinct-pixel statistic {want} ({len(pix)} pixels)", case)
+            break
     # uniform image
     if case["img"] == "uniform" and not integrate:
         k = float(arr.flat[0])
@@ -563,6 +544,8 @@ def run(ck):
         "the clause 'equal for all interfaces of a uniformly bright image' is read for the non-integrated window statistic: "
         "with integration the statistic is by the property's own first sentence (band pixel count * brightness / length), "
         "which is not constant",
+        "defect D22 (band was a set of float positions, pixels summed more than once) is repaired in /repo 5a78257; the "
+        "model follows the repaired code, corpus/C17/fractional_band.json guards the repair",
         "BigEdge.xs/ys equal the coordinates of BigEdge.vertices (true for freshly built frames; the integrated branch reads "
         "xs/ys, the window branch reads vertex.x/.y)",
         "normalize='average' with zero mean intensity (or an empty list) raises FloatingPointError under forsys' np.seterr: "
